@@ -149,10 +149,16 @@ func (w *countWriter) Write(p []byte) (int, error) {
 type reserveWriter struct {
 	countWriter
 	reserved, commits int
+	onCommit          func()
 }
 
 func (w *reserveWriter) Reserve(n int) { w.reserved += n }
-func (w *reserveWriter) Commit()       { w.commits++ }
+func (w *reserveWriter) Commit() {
+	w.commits++
+	if w.onCommit != nil {
+		w.onCommit()
+	}
+}
 
 // cycleFactors computes the documented cycle factors of the instruction at K:PC in state s.
 func cycleFactors(s ref.State, img *mem.Image) (op byte, pcross, rel8, taken, bcross bool) {
@@ -558,6 +564,7 @@ func C12(r *vf.Run) {
 					ma.NoRdSet = true
 					A.load(s, stale, g, ma)
 					var cw *countWriter
+					var commitAct func(c *cpu65c816.CPU)
 					switch g.Intn(3) {
 					case 0:
 						A.s.Logger = nil
@@ -568,6 +575,16 @@ func C12(r *vf.Run) {
 						rw := &reserveWriter{}
 						cw = &rw.countWriter
 						A.s.Logger = rw
+						if g.Intn(3) == 0 {
+							// a front-end whose Commit acts on the machine (rewinds it to where the frame began,
+							// parks it on the breakpoint): what RunUntil reports is about the PC it leaves behind
+							to := pcs[g.Intn(len(pcs))]
+							if g.Bool() {
+								to = target
+							}
+							commitAct = func(c *cpu65c816.CPU) { c.RK, c.PC = byte(to>>16), uint16(to) }
+							rw.onCommit = func() { commitAct(&A.s.CPU) }
+						}
 					}
 					// callbacks that act on the CPU they are attached to (a host-side hook skipping or
 					// replacing a routine, raising an interrupt, patching a flag, a one-shot breakpoint):
@@ -629,6 +646,10 @@ func C12(r *vf.Run) {
 						}
 					}
 					B.s.CPU.OnPC = nil
+					if commitAct != nil && bpan == nil {
+						commitAct(&B.s.CPU) // (the specification commits the trace after the loop, before it answers)
+						cells["run:commit-acts-on-the-cpu"]++
+					}
 					r.Eval(1)
 					det := func() interface{} {
 						return map[string]interface{}{"start": s.String(), "image_seed": img.Seed, "overlay_bytes": len(img.Ov), "target": fmt.Sprintf("$%06x", target), "budget": budget, "program_kind": kind, "spec_steps": steps, "spec_stop": reason, "callbacks": fmt.Sprint(plan), "interrupt_pending_at_entry": pendingAtEntry}
